@@ -21,13 +21,6 @@ Proof.
   - destruct (IHl H) as [e [A B]]. exists e. split; [right; exact A | exact B].
 Qed.
 
-Lemma ordered_b_nth : forall ns j n, ordered_b ns = true -> nth_error ns j = Some n ->
-  n_drum n = false -> n_start n <= n_end n.
-Proof.
-  unfold ordered_b; intros. rewrite forallb_forall in H. apply nth_error_In in H0.
-  specialize (H n H0). rewrite H1 in H. cbn [orb] in H. lia.
-Qed.
-
 Section NoPedal.
   (** [P i = true]: instrument [i] never receives a pedal-down event. *)
   Variable P : Z -> bool.
@@ -102,6 +95,12 @@ Section NoPedal.
     intros s e rest Hs Hwfs Hnp I.
     pose proof (Forall_inv Hwfs) as Hwf. apply Forall_inv_tail in Hwfs. rewrite Forall_forall in Hwfs.
     inversion Hs as [|e' l Hle Hs']; subst.
+    assert (ON : is_on_ev e = match e_kind e with KNoteOn => true | _ => false end) by reflexivity.
+    assert (OFF : is_off_ev e = match e_kind e with KNoteOff => true | _ => false end) by reflexivity.
+    assert (CNT : forall v, P (n_instr v) = true ->
+             (cntA v (active s) + ((if is_on_ev e && note_eqb (cell_at cs0 (e_ref e)) v then 1 else 0) + cnt_ev is_on_ev cs0 v rest)
+              <= (if is_off_ev e && note_eqb (cell_at cs0 (e_ref e)) v then 1 else 0) + cnt_ev is_off_ev cs0 v rest)%nat).
+    { intros v Pv. pose proof (ip_cnt _ _ I v Pv) as C. rewrite !cnt_ev_cons in C. exact C. }
     unfold step. unfold ev_wf in Hwf.
     destruct (e_kind e) eqn:K.
     - (* pedal down: an instrument outside P *)
@@ -109,10 +108,9 @@ Section NoPedal.
       constructor; cbn [cells active sus total].
       + apply (ip_sim _ _ I).
       + apply (ip_cells _ _ I).
-      + intros i Pi. cbn [is_sus existsb]. rewrite (ip_sus _ _ I i Pi).
+      + intros i Pi. pose proof (ip_sus _ _ I i Pi) as Q. unfold is_sus in *. cbn [existsb]. rewrite Q.
         destruct (i =? e_instr e) eqn:E; [|reflexivity]. assert (i = e_instr e) by lia. congruence.
-      + intros v Pv. pose proof (ip_cnt _ _ I v Pv) as C. rewrite !cnt_ev_cons in C.
-        unfold is_on_ev, is_off_ev in C at 1 3. rewrite K in C. cbn [andb] in C. lia.
+      + intros v Pv. specialize (CNT v Pv). rewrite ON, OFF in CNT. cbn [andb] in CNT. lia.
       + intros A. specialize (A (e_instr e)). congruence.
     - (* pedal up *)
       destruct (P (e_instr e)) eqn:Pe.
@@ -122,26 +120,252 @@ Section NoPedal.
           -- apply (ip_sim _ _ I).
           -- apply (ip_cells _ _ I).
           -- intros i Pi. apply is_sus_off_other. apply (ip_sus _ _ I i Pi).
-          -- intros v Pv. pose proof (ip_cnt _ _ I v Pv) as C. rewrite !cnt_ev_cons in C.
-             unfold is_on_ev, is_off_ev in C at 1 3. rewrite K in C. cbn [andb] in C. lia.
+          -- intros v Pv. specialize (CNT v Pv). rewrite ON, OFF in CNT. cbn [andb] in CNT. lia.
           -- apply (ip_tot _ _ I).
         * intros a Ha Ia.
           assert (Pa : P (iof cs0 a) = true).
           { rewrite <- (iof_sim cs0 (cells s) a (ip_sim _ _ I)). unfold iof. rewrite Ia. exact Pe. }
           assert (Ea : cell_at (cells s) a = cell_at cs0 a).
           { unfold cell_at. rewrite (ip_cells _ _ I a Pa). reflexivity. }
-          pose proof (ip_cnt _ _ I (cell_at cs0 a) Pa) as C.
+          specialize (CNT (cell_at cs0 a) Pa). rewrite ON, OFF in CNT. cbn [andb] in CNT.
           pose proof (cntA_In_pos _ _ _ Ha eq_refl) as C1.
-          rewrite !cnt_ev_cons in C. unfold is_off_ev in C at 1. rewrite K in C. cbn [andb] in C.
           assert (0 < cnt_ev is_off_ev cs0 (cell_at cs0 a) rest)%nat as C2 by lia.
           apply cnt_ev_pos_In in C2. destruct C2 as [e2 [In2 [Off2 V2]]].
           rewrite Forall_forall in Hle. pose proof (Hle e2 In2) as L2.
-          (* e2 is the NOTE_OFF of a note equal to cell a: its time is that end *)
-          assert (W2 : ev_wf ns e2).
-          { admit. }
-          admit.
-      + admit.
-    - admit.
-    - admit.
-  Admitted.
+          pose proof (Hwfs e2 In2) as W2. unfold ev_wf in W2. unfold is_off_ev in Off2.
+          destruct (e_kind e2) eqn:K2; try discriminate.
+          destruct W2 as [n2 [N2 [D2 [I2 T2]]]].
+          pose proof (cell_at_init _ _ _ N2) as Q2. fold cs0 in Q2. rewrite Q2 in V2. rewrite Ea, <- V2, <- T2.
+          unfold ev_lt in L2. lia.
+      + (* of an instrument outside P: only its own cells and entries change *)
+        assert (NE : forall j, P (iof cs0 j) = true -> iof (cells s) j <> e_instr e).
+        { intros j Pj C. rewrite (iof_sim cs0 _ j (ip_sim _ _ I)) in C. congruence. }
+        assert (Q : forall v, P (n_instr v) = true ->
+                  forall a, iof (cells s) a = e_instr e -> note_eqb (cell_at cs0 a) v = false).
+        { intros v Pv a Ha. destruct (note_eqb (cell_at cs0 a) v) eqn:E; auto.
+          apply note_eqb_eq in E. rewrite (iof_sim cs0 _ a (ip_sim _ _ I)) in Ha. unfold iof in Ha.
+          rewrite E in Ha. congruence. }
+        pose proof (off_loop_sim (e_instr e) (e_time e) (active s) (cells s) (total s)) as S.
+        pose proof (fun q H => off_loop_other q (e_instr e) (e_time e) (active s) (cells s) (total s) H) as O.
+        destruct (off_loop _ _ _ _ _) as [[k c] o]. cbn [fst snd] in *.
+        constructor; cbn [cells active sus total].
+        * eapply sim_trans; [apply (ip_sim _ _ I) | exact S].
+        * intros j Pj. destruct (O (fun _ => false) (fun _ _ => eq_refl)) as [O1 _].
+          rewrite O1 by (apply NE; exact Pj). apply (ip_cells _ _ I j Pj).
+        * intros i Pi. apply is_sus_off_other. apply (ip_sus _ _ I i Pi).
+        * intros v Pv. destruct (O _ (Q v Pv)) as [_ O2]. unfold cntA at 1. rewrite O2. fold (cntA v (active s)).
+          specialize (CNT v Pv). rewrite ON, OFF in CNT. cbn [andb] in CNT. lia.
+        * intros A. specialize (A (e_instr e)). congruence.
+    - (* note on *)
+      destruct Hwf as [n [Nn [Dn [In_ Tn]]]].
+      pose proof (cell_at_init _ _ _ Nn) as Cn. fold cs0 in Cn.
+      assert (APP : forall v c, cntA v (c ++ [e_ref e]) = (cntA v c + (if note_eqb n v then 1 else 0))%nat).
+      { intros. rewrite cntA_app. unfold cntA at 2. cbn [filter]. rewrite Cn.
+        destruct (note_eqb n v); reflexivity. }
+      destruct (P (e_instr e)) eqn:Pe.
+      + rewrite (ip_sus _ _ I _ Pe).
+        constructor; cbn [cells active sus total]; try apply I.
+        intros v Pv. rewrite APP. specialize (CNT v Pv). rewrite ON, OFF, Cn in CNT. cbn [andb] in CNT. lia.
+      + assert (NV : forall v, P (n_instr v) = true -> note_eqb n v = false).
+        { intros v Pv. destruct (note_eqb n v) eqn:E; auto. apply note_eqb_eq in E. subst v. congruence. }
+        destruct (is_sus (e_instr e) (sus s)).
+        * assert (NE : forall j, P (iof cs0 j) = true -> iof (cells s) j <> e_instr e).
+          { intros j Pj C. rewrite (iof_sim cs0 _ j (ip_sim _ _ I)) in C. congruence. }
+          assert (Q : forall v, P (n_instr v) = true ->
+                    forall a, iof (cells s) a = e_instr e -> note_eqb (cell_at cs0 a) v = false).
+          { intros v Pv a Ha. destruct (note_eqb (cell_at cs0 a) v) eqn:E; auto.
+            apply note_eqb_eq in E. rewrite (iof_sim cs0 _ a (ip_sim _ _ I)) in Ha. unfold iof in Ha.
+            rewrite E in Ha. congruence. }
+          set (p := n_pitch (cell_at (cells s) (e_ref e))).
+          pose proof (on_loop_sim (e_instr e) p (e_time e) (active s) (cells s)) as S.
+          pose proof (fun q H => on_loop_other q (e_instr e) p (e_time e) (active s) (cells s) H) as O.
+          destruct (on_loop _ _ _ _ _) as [k c]. cbn [fst snd] in *.
+          constructor; cbn [cells active sus total].
+          -- eapply sim_trans; [apply (ip_sim _ _ I) | exact S].
+          -- intros j Pj. destruct (O (fun _ => false) (fun _ _ => eq_refl)) as [O1 _].
+             rewrite O1 by (apply NE; exact Pj). apply (ip_cells _ _ I j Pj).
+          -- apply (ip_sus _ _ I).
+          -- intros v Pv. rewrite APP, (NV v Pv). destruct (O _ (Q v Pv)) as [_ O2].
+             unfold cntA at 1. rewrite O2. fold (cntA v (active s)).
+             specialize (CNT v Pv). rewrite ON, OFF, Cn, (NV v Pv) in CNT. cbn [andb] in CNT. lia.
+          -- apply (ip_tot _ _ I).
+        * constructor; cbn [cells active sus total]; try apply I.
+          intros v Pv. rewrite APP, (NV v Pv).
+          specialize (CNT v Pv). rewrite ON, OFF, Cn, (NV v Pv) in CNT. cbn [andb] in CNT. lia.
+    - (* note off *)
+      destruct Hwf as [n [Nn [Dn [In_ Tn]]]].
+      pose proof (cell_at_init _ _ _ Nn) as Cn. fold cs0 in Cn.
+      destruct (P (e_instr e)) eqn:Pe.
+      + rewrite (ip_sus _ _ I _ Pe).
+        assert (Pn : P (iof cs0 (e_ref e)) = true) by (unfold iof; rewrite Cn; congruence).
+        assert (En : cell_at (cells s) (e_ref e) = n).
+        { unfold cell_at. rewrite (ip_cells _ _ I _ Pn). exact Cn. }
+        rewrite En.
+        constructor; cbn [cells active sus total]; try apply I.
+        intros v Pv.
+        assert (Pn' : P (n_instr n) = true) by congruence.
+        pose proof (remove_first_cnt (cells s) n v (active s) (fun a => eqb_agree s _ n a I Pn')) as R.
+        specialize (CNT v Pv). rewrite ON, OFF, Cn in CNT. cbn [andb] in CNT.
+        destruct (note_eqb n v) eqn:E; [|lia].
+        apply note_eqb_eq in E. subst v.
+        destruct (cntA n (active s)) eqn:CA; [|lia].
+        (* no equal note is active: then no NOTE_ON of an equal note can be pending *)
+        assert (cnt_ev is_on_ev cs0 n rest = 0)%nat as Z0.
+        { destruct (cnt_ev is_on_ev cs0 n rest) eqn:C0; auto. exfalso.
+          assert (0 < cnt_ev is_on_ev cs0 n rest)%nat as C2 by lia.
+          apply cnt_ev_pos_In in C2. destruct C2 as [e2 [In2 [On2 V2]]].
+          rewrite Forall_forall in Hle. pose proof (Hle e2 In2) as L2.
+          pose proof (Hwfs e2 In2) as W2. unfold ev_wf in W2. unfold is_on_ev in On2.
+          destruct (e_kind e2) eqn:K2; try discriminate.
+          destruct W2 as [n2 [N2 [D2 [I2 T2]]]].
+          pose proof (cell_at_init _ _ _ N2) as Q2. fold cs0 in Q2. rewrite Q2 in V2. subst n2.
+          pose proof (ordered_b_nth _ _ _ Hord Nn Dn) as Ord.
+          pose proof code_order as CO.
+          unfold ev_lt in L2. rewrite K, K2 in L2. cbn [kind_code] in L2. lia. }
+        lia.
+      + destruct (is_sus (e_instr e) (sus s)).
+        * constructor; try apply I.
+          intros v Pv. specialize (CNT v Pv). rewrite ON, OFF, Cn in CNT.
+          assert (note_eqb n v = false) as NV.
+          { destruct (note_eqb n v) eqn:E; auto. apply note_eqb_eq in E. subst v. congruence. }
+          rewrite NV in CNT. cbn [andb] in CNT. lia.
+        * constructor; cbn [cells active sus total]; try apply I.
+          intros v Pv. specialize (CNT v Pv). rewrite ON, OFF, Cn in CNT.
+          assert (note_eqb n v = false) as NV.
+          { destruct (note_eqb n v) eqn:E; auto. apply note_eqb_eq in E. subst v. congruence. }
+          rewrite NV in CNT. cbn [andb] in CNT.
+          unfold cntA at 1. rewrite remove_first_eq_other; [fold (cntA v (active s)); lia|].
+          intros a Ha. destruct (note_eqb (cell_at cs0 a) v) eqn:E; auto. apply note_eqb_eq in E.
+          assert (iof (cells s) a = iof cs0 a) as F by (apply iof_sim; apply (ip_sim _ _ I)).
+          assert (iof (cells s) (e_ref e) = iof cs0 (e_ref e)) as G by (apply iof_sim; apply (ip_sim _ _ I)).
+          unfold iof in F, G. rewrite Ha, G, Cn, E in F. congruence.
+  Qed.
 End NoPedal.
+
+Lemma run_invP : forall P ns tot0, ordered_b ns = true -> forall evs s,
+  sorted evs -> Forall (ev_wf ns) evs ->
+  (forall e, In e evs -> e_kind e = KSusOn -> P (e_instr e) = false) ->
+  invP P ns tot0 s evs -> invP P ns tot0 (run_events evs s) [].
+Proof.
+  intros P ns tot0 Hord. induction evs; intros s Hs Hw Hn I; cbn [run_events fold_left]; [exact I|].
+  apply IHevs.
+  - inversion Hs; assumption.
+  - inversion Hw; assumption.
+  - intros e He. apply Hn. right. exact He.
+  - apply (step_invP P ns tot0 Hord s a evs Hs Hw); [|exact I]. apply Hn. left. reflexivity.
+Qed.
+
+Lemma init_invP : forall P ctl ns ccs tot0,
+  invP P ns tot0 (init_st ns tot0) (sorted_events ctl ns ccs).
+Proof.
+  intros. constructor; cbn [init_st cells active sus total]; auto.
+  - apply sim_refl.
+  - intros v _. cbn. unfold sorted_events.
+    rewrite (cnt_ev_perm is_on_ev _ v _ _ (sort_events_perm _)).
+    rewrite (cnt_ev_perm is_off_ev _ v _ _ (sort_events_perm _)).
+    rewrite build_events_balanced. lia.
+Qed.
+
+Lemma cc_events_on : forall ctl ccs e, In e (cc_events ctl ccs) -> e_kind e = KSusOn ->
+  exists c, In c ccs /\ cc_num c = ctl /\ is_on c = true /\ e_instr e = cc_instr c.
+Proof.
+  unfold cc_events; intros. apply in_map_iff in H. destruct H as [c [<- H]].
+  apply filter_In in H. destruct H as [H1 H2]. exists c. cbn [e_kind e_instr] in *.
+  unfold is_on. destruct (64 <=? cc_val c); [|discriminate]. repeat split; auto. lia.
+Qed.
+
+Lemma sorted_events_on : forall ctl ns ccs e, In e (sorted_events ctl ns ccs) -> e_kind e = KSusOn ->
+  exists c, In c ccs /\ cc_num c = ctl /\ is_on c = true /\ e_instr e = cc_instr c.
+Proof.
+  intros. apply (Permutation_in _ (sort_events_perm _)) in H. unfold build_events in H.
+  rewrite !in_app_iff in H. destruct H as [H|[H|H]].
+  - apply note_events_In in H. destruct H as [n [_ [_ E]]]. rewrite E in H0. discriminate.
+  - apply note_events_In in H. destruct H as [n [_ [_ E]]]. rewrite E in H0. discriminate.
+  - apply cc_events_on; assumption.
+Qed.
+
+(** Pre-closing and closing facts shared by both corollaries. *)
+Lemma no_pedal_cells : forall P ctl ns ccs tot,
+  ordered_b ns = true ->
+  (forall c, In c ccs -> cc_num c = ctl -> P (cc_instr c) = true -> is_on c = false) ->
+  let s := pre_close ctl ns ccs tot in
+  invP P ns tot s [] /\
+  (forall a, In a (active s) -> P (iof (init_cells ns) a) = false).
+Proof.
+  intros P ctl ns ccs tot Hord Hcc s.
+  assert (I : invP P ns tot s []).
+  { apply run_invP; auto.
+    - apply sort_events_sorted.
+    - apply sorted_events_wf.
+    - intros e He K. destruct (sorted_events_on _ _ _ _ He K) as [c [C1 [C2 [C3 C4]]]].
+      destruct (P (e_instr e)) eqn:Pe; auto. rewrite C4 in Pe. rewrite (Hcc c C1 C2 Pe) in C3. discriminate.
+    - apply init_invP. }
+  split; [exact I|].
+  intros a Ha. destruct (P (iof (init_cells ns) a)) eqn:Pa; auto.
+  pose proof (ip_cnt _ _ _ _ _ I (cell_at (init_cells ns) a) Pa) as C.
+  pose proof (cntA_In_pos P ns 0 _ _ _ Ha eq_refl) as C1. cbn in C. lia.
+Qed.
+
+(** T3: notes of instruments without a pedal-down event are returned unchanged. *)
+Lemma sustain_pedal_free_instruments : forall (P : Z -> bool) ctl ns ccs tot,
+  ordered_b ns = true ->
+  (forall c, In c ccs -> cc_num c = ctl -> P (cc_instr c) = true -> is_on c = false) ->
+  Forall2 (fun n c => P (n_instr n) = true -> c = mkCell n true) ns (fst (sustain_cells ctl ns ccs tot)).
+Proof.
+  intros P ctl ns ccs tot Hord Hcc.
+  destruct (no_pedal_cells P ctl ns ccs tot Hord Hcc) as [I A].
+  apply (nth_Forall2 _ dummy_cell).
+  - rewrite (sim_length _ _ (sustain_cells_sim ctl ns ccs tot)). unfold init_cells. apply map_length.
+  - intros j n Hj Pn. unfold sustain_cells, sustain_cells_gen.
+    rewrite close_other.
+    + rewrite (ip_cells _ _ _ _ _ I j); [apply nth_init; exact Hj|].
+      unfold iof. rewrite (cell_at_init _ _ _ Hj). exact Pn.
+    + intros C. specialize (A j C). unfold iof in A. rewrite (cell_at_init _ _ _ Hj) in A. congruence.
+Qed.
+
+Lemma sustain_instrument_without_pedal : forall ctl i ns ccs tot,
+  ordered_b ns = true -> no_pedal_down ctl i ccs = true ->
+  Forall2 (fun n c => n_instr n = i -> c = mkCell n true) ns (fst (sustain_cells ctl ns ccs tot)).
+Proof.
+  intros ctl i ns ccs tot Hord Hnp.
+  pose proof (sustain_pedal_free_instruments (fun j => j =? i) ctl ns ccs tot Hord) as H.
+  cbv beta in H.
+  assert (forall c, In c ccs -> cc_num c = ctl -> (cc_instr c =? i) = true -> is_on c = false) as Hcc.
+  { intros c C1 C2 C3. unfold no_pedal_down, pedal_events in Hnp. rewrite forallb_forall in Hnp.
+    specialize (Hnp c). rewrite filter_In in Hnp.
+    assert (negb (is_on c) = true) as N by (apply Hnp; split; [exact C1 | lia]).
+    destruct (is_on c); [discriminate | reflexivity]. }
+  specialize (H Hcc). clear Hord Hnp Hcc. induction H; constructor; auto. intros E. apply H. lia.
+Qed.
+
+(** T3': without any pedal-down event the function is the identity (on notes and total_time). *)
+Lemma sustain_no_pedal_cells : forall ctl ns ccs tot,
+  ordered_b ns = true ->
+  (forall c, In c ccs -> cc_num c = ctl -> is_on c = false) ->
+  sustain_cells ctl ns ccs tot = (init_cells ns, tot).
+Proof.
+  intros ctl ns ccs tot Hord Hcc.
+  destruct (no_pedal_cells (fun _ => true) ctl ns ccs tot Hord (fun c A B _ => Hcc c A B)) as [I A].
+  unfold sustain_cells, sustain_cells_gen.
+  destruct (active (pre_close ctl ns ccs tot)) as [|a r] eqn:E.
+  - cbn [close]. f_equal.
+    + apply nth_ext with (d := dummy_cell) (d' := dummy_cell).
+      * apply (sim_length _ _ (ip_sim _ _ _ _ _ I)).
+      * intros j _. apply (ip_cells _ _ _ _ _ I j eq_refl).
+    + apply (ip_tot _ _ _ _ _ I). reflexivity.
+  - specialize (A a (or_introl eq_refl)). discriminate.
+Qed.
+
+Lemma live_init : forall ns, live_notes (init_cells ns) = ns.
+Proof. unfold live_notes, init_cells. induction ns; cbn; congruence. Qed.
+
+Lemma sustain_no_pedal_identity : forall ctl s,
+  is_quantized s = false -> ordered_b (s_notes s) = true ->
+  (forall c, In c (s_ccs s) -> cc_num c = ctl -> is_on c = false) ->
+  apply_sustain ctl s = Some s.
+Proof.
+  intros ctl s Q Hord Hcc. unfold apply_sustain, apply_sustain_gen. rewrite Q.
+  fold (sustain_cells ctl (s_notes s) (s_ccs s) (s_total s)).
+  rewrite (sustain_no_pedal_cells ctl _ _ _ Hord Hcc). rewrite live_init.
+  destruct s; reflexivity.
+Qed.
